@@ -68,7 +68,9 @@ def generate(tier: str) -> fx.TlcResult:
         return MC_CFG.format(maxb=3, maxx=2, maxo=2, family=family, denall=denall, errmodes=errmodes,
                              bfirst=tla_set(SHARDS[i]))
 
-    res = fx.run_tlc_sharded('MC_Dense', cfg, len(SHARDS), workers=3, parallel=5)
+    # deep (lazy) evaluation of the matrix expressions: give the TLC worker threads a larger stack
+    res = fx.run_tlc_sharded('MC_Dense', cfg, len(SHARDS), workers=3, parallel=5,
+                             env={'JAVA_TOOL_OPTIONS': '-Xss64m'})
     if res.violated:
         raise fx.MachineryError(f'MC_Dense violates {res.violated} at design level:\n' + res.stdout[-3000:])
     return res
